@@ -718,6 +718,9 @@ func cmpWire0(sp *spec.Spec, p *Place, e spec.Eff, v any, texts []string, joined
 // jsonCarries reports whether the decoded JSON value j carries the neutral value v of type t.
 func jsonCarries(sp *spec.Spec, t *spec.Type, v any, j any) bool {
 	e := sp.Eff(t)
+	if e.K == spec.KUnion && v != nil {
+		return unionJSONCarries(sp, t, v, j)
+	}
 	switch x := v.(type) {
 	case nil:
 		return j == nil
